@@ -170,6 +170,15 @@ func genC15(rng *rand.Rand, tier string) *sim.Plan {
 
 func oracleC15(p *sim.Plan, out *sim.Outcome) []sim.Violation {
 	vs := genericOracle(p, out)
+	if out.Faults["redis.cmd_error"]+out.Faults["redis.conn_drop"] > 0 {
+		// a panic in a run in which a storage command failed carries that in its signature (one such panic is a
+		// recorded finding: the redis queue does not survive failed writes with its cursor intact)
+		for i := range vs {
+			if vs[i].Clause == "panic" {
+				vs[i].Sig += "@storage-fault"
+			}
+		}
+	}
 	h := out.H
 	w := out.W
 	if out.LoopErr != nil {
